@@ -88,7 +88,15 @@ type siCase struct {
 }
 
 func genSiCase(t *rapid.T) siCase {
-	c := siCase{Init: genSet(t, 8), Spare: rapid.SampledFrom([]int{0, 0, 1, 3, 16}).Draw(t, "spare")}
+	init := genSet(t, 8)
+	if rapid.IntRange(0, 5).Draw(t, "longinit") == 0 {
+		m := map[int]bool{}
+		for i := rapid.IntRange(16, 70).Draw(t, "initlen"); i > 0; i-- {
+			m[rapid.IntRange(-8, 120).Draw(t, "iv")] = true
+		}
+		init = sortedKeys(m)
+	}
+	c := siCase{Init: init, Spare: rapid.SampledFrom([]int{0, 0, 1, 3, 16}).Draw(t, "spare")}
 	n := rapid.IntRange(1, sz(12, 40)).Draw(t, "nops")
 	cur := setOf(c.Init)
 	for i := 0; i < n; i++ {
@@ -209,6 +217,22 @@ type sfCase struct {
 
 func genSfCase(t *rapid.T) sfCase {
 	c := sfCase{A: genSet(t, 10), B: genSet(t, 10), X: genValue(t), N: rapid.IntRange(0, 14).Draw(t, "n"), Raw: genIntList(t, 10)}
+	if rapid.IntRange(0, 4).Draw(t, "skewed") == 0 {
+		// a long set against a short one (any size-dependent fast path), dense so that near misses are common
+		long := map[int]bool{}
+		for i := rapid.IntRange(16, 80).Draw(t, "longlen"); i > 0; i-- {
+			long[rapid.IntRange(-10, 140).Draw(t, "lv")] = true
+		}
+		short := map[int]bool{}
+		for i := rapid.IntRange(0, 5).Draw(t, "shortlen"); i > 0; i-- {
+			short[rapid.IntRange(-10, 140).Draw(t, "sv")] = true
+		}
+		c.A, c.B = sortedKeys(long), sortedKeys(short)
+		if rapid.Bool().Draw(t, "swap") {
+			c.A, c.B = c.B, c.A
+		}
+		return c
+	}
 	if rapid.IntRange(0, 3).Draw(t, "subset") == 0 && len(c.A) > 0 {
 		// make B a subset of A (ContainsSorted true branch)
 		var b []int
@@ -487,7 +511,7 @@ func init() {
 		"rapid: one receiver (with 0..16 spare capacity) under a script of Add (unsorted, repeated, already-present arguments) / Remove / Union; values dense in -8..12, 5% any int; model map[int]bool; receiver strictly increasing and equal to the model after every op, arguments unchanged. Non-trivial: an Add with a repeated argument and an already-present argument, or a Union with overlap into spare capacity.",
 		Budget{Checks: 6000, Shards: 1}, Budget{Checks: 400000, Shards: 16}, genSiCase, checkSiCase)
 	RegisterRapid("C17_functions",
-		"rapid: sets a, b (b sometimes a subset of a), x, n, raw list; Union/Intersection/SetMinus/XOR/IntersectionSize/ContainsSorted/ContainsSingle/Complement/NewSortedInts against the model; inputs unchanged; results fresh (overwritten up to capacity, inputs re-compared). Non-trivial: a and b overlap properly.",
+		"rapid: sets a, b of up to 10 elements (b sometimes a subset of a; one case in five a dense set of 16..80 elements against one of 0..5), x, n, raw list; Union/Intersection/SetMinus/XOR/IntersectionSize/ContainsSorted/ContainsSingle/Complement/NewSortedInts against the model; inputs unchanged; results fresh (overwritten up to capacity, inputs re-compared). Non-trivial: a and b overlap properly.",
 		Budget{Checks: 6000, Shards: 1}, Budget{Checks: 400000, Shards: 8}, genSfCase, checkSfCase)
 	RegisterRapid("C17_range",
 		"rapid: (start,end,step) with |values| <= 20 around 0 or around a far base, step in -7..7; oracle: {start+i*step, i>=0} from start inclusive to end exclusive, the three documented infinite-set panics being the only allowed panics. Non-trivial: negative step with a non-empty result.",
